@@ -104,6 +104,8 @@ def expectedShapes : List (String × Option Int × Bool) := [
   ("transform.sorts.SortView._iterfrommemcache", some 0, false),
   ("transform.sorts.SortView._iterfromfilecache", some 0, false),
   ("transform.sorts.SortView._iternocache", none, true),
+  ("transform.sorts._standardisedata", some 1, false),
+  ("transform.sorts._MergeSortInput.__iter__", none, true),
   ("transform.sorts.itermergesort", none, true),
   ("transform.unpacks.iterunpack", some 1, false),
   ("transform.unpacks.iterunpackdict", none, true),
